@@ -26,6 +26,28 @@ CHECKS = [
         "note": "Trusts the reference recogniser's reading of docs/source/guide/formatting.rst and the style class "
                 "docstrings (z-index range per the normative rule, ASCII alphabet).",
     },
+    {
+        "property_id": "C04",
+        "technique": "property-based testing against an exact rational-arithmetic reference; model-based op histories",
+        "text": "Generated (family, source size up to 3000^2, terminal size, cell size/unknown, float cell ratio, "
+                "absolute/relative frame, mode) cases are judged in exact Fraction arithmetic against every clause of "
+                "the property (positivity, FIT/AUTO within frame, FIT touching, FIT_TO_WIDTH, kept dimensions, free "
+                "dimension within <1 cell of the exact aspect value, AUTO choice rule); op histories check that fixed "
+                "sizes never move and dynamic sizes follow the configuration; UrwidImage.rows() == rendered rows.",
+        "note": "Tolerances are the property's own (<1 cell; AUTO may go either way within a half-pixel rounding band "
+                "incl. the exact tie). Terminal facts are injected through the StubEnv seam used by the repo's tests.",
+    },
+    {
+        "property_id": "C05",
+        "technique": "differential testing on a terminal model (padded output vs bare render at the reference offset) + exhaustive small grid",
+        "text": "For generated inner renders (glyph grids, block SGR renders, kitty/iterm2 renders in every quirk "
+                "identity), paddings (aligned absolute/relative, exact), fills and terminal sizes, the padded output "
+                "is executed on the terminal model and compared cell-by-cell and placement-by-placement with the bare "
+                "render placed at the offset given by reference arithmetic; covers Padding.pad, Renderable.render, "
+                "RenderIterator (incl. set_padding), format(image, spec) and image.draw(); a small grid of aligned "
+                "paddings is enumerated exhaustively.",
+        "note": "Trusts vf.vt terminal semantics and the one-column-fill precondition documented for Padding.",
+    },
 ]
 
 NOT_APPLICABLE = [
